@@ -12,8 +12,11 @@ pub struct Managed;
 
 fn op_name(op: &Op) -> String {
     match op {
-        Op::Get { t, enclosing, cancellable } => {
+        Op::Get { t, enclosing, cancellable, fault } => {
             let mut s = String::from("Get");
+            if let Some(f) = fault {
+                s.push_str(&format!("!{:?}:{:?}", f.at, f.outcome.kind));
+            }
             if let GetT::Explicit { wait, create, recycle } = t {
                 s.push_str(&format!(
                     "(w={},c={},r={})",
@@ -187,20 +190,25 @@ impl Harness for Managed {
         }
         for i in 0..sc.actors.len() {
             for k in 0..sc.actors[i].len() {
-                if let Op::Get { t, enclosing, cancellable } = sc.actors[i][k] {
+                if let Op::Get { t, enclosing, cancellable, fault } = sc.actors[i][k] {
+                    if fault.is_some() {
+                        let mut c = sc.clone();
+                        c.actors[i][k] = Op::Get { t, enclosing, cancellable, fault: None };
+                        out.push(c);
+                    }
                     if t != GetT::Inherit {
                         let mut c = sc.clone();
-                        c.actors[i][k] = Op::Get { t: GetT::Inherit, enclosing, cancellable };
+                        c.actors[i][k] = Op::Get { t: GetT::Inherit, enclosing, cancellable, fault };
                         out.push(c);
                     }
                     if enclosing.is_some() {
                         let mut c = sc.clone();
-                        c.actors[i][k] = Op::Get { t, enclosing: None, cancellable };
+                        c.actors[i][k] = Op::Get { t, enclosing: None, cancellable, fault };
                         out.push(c);
                     }
                     if cancellable {
                         let mut c = sc.clone();
-                        c.actors[i][k] = Op::Get { t, enclosing, cancellable: false };
+                        c.actors[i][k] = Op::Get { t, enclosing, cancellable: false, fault };
                         out.push(c);
                     }
                 }
@@ -274,6 +282,13 @@ impl Harness for Managed {
         out
     }
 
+    fn grid(&self, profile: &str, _thorough: bool) -> Vec<MScenario> {
+        match profile {
+            "C03" => c03_grid(),
+            _ => Vec::new(),
+        }
+    }
+
     fn shape(&self, sc: &MScenario) -> String {
         let mut s = format!(
             "max_size={} runtime={} pool_t=(w={},c={},r={}) hooks={}/{}/{} |",
@@ -309,4 +324,134 @@ impl Harness for Managed {
         s.push_str(&format!(" | sites=[{}]", sc.knobs.sites.join(",")));
         s
     }
+}
+
+
+/// C03 sub-grid: suspension point x abandonment mode x base state x max_size x queue mode,
+/// single task, so that the differential oracle (books before vs after) applies to every case.
+pub fn c03_grid() -> Vec<MScenario> {
+    use crate::engine::Knobs;
+    let mut out = Vec::new();
+    let get = |fault: Option<OpFault>, enclosing: Option<u64>, cancellable: bool| Op::Get {
+        t: GetT::Inherit,
+        fault,
+        enclosing,
+        cancellable,
+    };
+    let plain = get(None, None, false);
+    // (point, hook index)
+    let points: Vec<Option<CallTag>> = vec![
+        None, // wait
+        Some(CallTag::PreRecycle(0)),
+        Some(CallTag::PreRecycle(1)),
+        Some(CallTag::Recycle),
+        Some(CallTag::PostRecycle(0)),
+        Some(CallTag::PostRecycle(1)),
+        Some(CallTag::Create),
+        Some(CallTag::PostCreate(0)),
+        Some(CallTag::PostCreate(1)),
+    ];
+    for max_size in 1..=3usize {
+        for lifo in [false, true] {
+            for hooks_async in [true, false] {
+                for base in 0..6 {
+                    // prefix building the base state
+                    let mut prefix: Vec<Op> = Vec::new();
+                    match base {
+                        0 => {}
+                        1 => {
+                            for _ in 0..max_size {
+                                prefix.push(plain);
+                            }
+                            for _ in 0..max_size {
+                                prefix.push(Op::Return { slot: 0 });
+                            }
+                        }
+                        2 => {
+                            for _ in 0..max_size {
+                                prefix.push(plain);
+                            }
+                        }
+                        3 => {
+                            for _ in 0..max_size {
+                                prefix.push(plain);
+                            }
+                            prefix.push(Op::Return { slot: 0 });
+                        }
+                        4 => {
+                            prefix.push(plain);
+                            prefix.push(Op::Return { slot: 0 });
+                            prefix.push(get(
+                                Some(OpFault {
+                                    at: CallTag::Recycle,
+                                    outcome: Outcome { kind: OKind::ErrBackend, mode: OMode::Immediate },
+                                }),
+                                None,
+                                false,
+                            ));
+                            prefix.push(Op::Return { slot: 0 });
+                        }
+                        _ => {
+                            for _ in 0..max_size {
+                                prefix.push(plain);
+                            }
+                            prefix.push(Op::Take { slot: 0 });
+                            for _ in 1..max_size {
+                                prefix.push(Op::Return { slot: 0 });
+                            }
+                            prefix.push(Op::Retain { pred: Pred::FirstN(1) });
+                        }
+                    }
+                    for pt in &points {
+                        for mode in 0..4 {
+                            // 0 drop future, 1 enclosing timeout, 2 awaited future panics, 3 call panics
+                            if pt.is_none() && mode >= 2 {
+                                continue;
+                            }
+                            if !hooks_async && mode < 3 && matches!(pt, Some(CallTag::PreRecycle(_)) | Some(CallTag::PostRecycle(_)) | Some(CallTag::PostCreate(_))) {
+                                continue; // sync hooks have no suspension point; only "call panics"
+                            }
+                            let kind = match mode {
+                                0 | 1 => OKind::Never,
+                                2 => OKind::Panic,
+                                _ => OKind::PanicCall,
+                            };
+                            let fault = pt.map(|at| OpFault {
+                                at,
+                                outcome: Outcome { kind, mode: OMode::Immediate },
+                            });
+                            let target = get(fault, if mode == 1 { Some(5) } else { None }, mode == 0);
+                            let mut ops = prefix.clone();
+                            ops.push(target);
+                            // follow-up traffic: the pool must keep working
+                            ops.push(Op::Return { slot: 0 });
+                            ops.push(plain);
+                            let sc = MScenario {
+                                profile: "C03".into(),
+                                pool: PoolCfg {
+                                    max_size,
+                                    lifo,
+                                    wait: None,
+                                    create: None,
+                                    recycle: None,
+                                    runtime: true,
+                                    post_create: vec![hooks_async; 2],
+                                    pre_recycle: vec![hooks_async; 2],
+                                    post_recycle: vec![hooks_async; 2],
+                                },
+                                actors: vec![ops],
+                                outcomes: Outcomes::default(),
+                                knobs: Knobs { p_cancel: 0, ..Knobs::default() },
+                                sched_seed: 1,
+                                drop_handles_first: false,
+                                rest_every: 0,
+                            };
+                            out.push(sc);
+                        }
+                    }
+                }
+            }
+        }
+    }
+    out
 }
